@@ -561,7 +561,21 @@ func opCodeMeta(_ *World, a []string) string {
 		return obsBadOp
 	}
 	m := vmcommon.CodeMetadataFromBytes(b)
-	return "ok " + codeMetaFlags(m) + " " + hxTok(m.ToBytes())
+	return "ok " + codeMetaFlags(m) + " " + ownedBytes(b, m.ToBytes())
+}
+
+// ownedBytes renders the encoding a helper returned and then uses it — and the input the value was decoded from — the way
+// an owner may: it overwrites both. A value decoded earlier or encoded later must not depend on either buffer (an encoder
+// that hands out a shared buffer, or a decoder that keeps its input, shows on the NEXT helper line).
+func ownedBytes(in, out []byte) string {
+	s := hxTok(out)
+	for i := range out {
+		out[i] = 0xff
+	}
+	for i := range in {
+		in[i] = 0xff
+	}
+	return s
 }
 
 func opUserMeta(_ *World, a []string) string {
@@ -570,7 +584,7 @@ func opUserMeta(_ *World, a []string) string {
 		return obsBadOp
 	}
 	m := builtInFunctions.ESDTUserMetadataFromBytes(b)
-	return "ok " + b01(m.Frozen) + " " + hxTok(m.ToBytes())
+	return "ok " + b01(m.Frozen) + " " + ownedBytes(b, m.ToBytes())
 }
 
 func opGlobalMeta(_ *World, a []string) string {
@@ -579,7 +593,7 @@ func opGlobalMeta(_ *World, a []string) string {
 		return obsBadOp
 	}
 	m := builtInFunctions.ESDTGlobalMetadataFromBytes(b)
-	return "ok " + b01(m.Paused) + " " + hxTok(m.ToBytes())
+	return "ok " + b01(m.Paused) + " " + ownedBytes(b, m.ToBytes())
 }
 
 func opAddr(_ *World, a []string) string {
